@@ -15,6 +15,15 @@ CLAIMS = {
         "for every value of i8/u8 per bound pair and the harness runs vek on every entry (all 20 integer/Wrapping types via scaled copies, all 13 vector types, "
         "scalar- and vector-bound forms, all API aliases). Thorough enumerates all 2^24 triples per ternary function and signedness."),
   design="§6 C17"),
+
+ "C18": dict(
+  technique="TLA+ ownership machine (VekIter) model-checked by TLC for every dimension; every transition of TLC's state graph replayed on IntoIter<Tracked>; conversion traces validated by TLC against the VekOwn ledger",
+  text=("TLC builds the complete state graph of the consuming-iterator machine for each dimension 2,3,4,8,16,32,64 and checks the ownership invariants "
+        "(live = cursor window, no read of a moved element, length reports, no leak, exactly-once) on it; behaviours covering every transition of every graph are replayed "
+        "on the real IntoIter of every vector type with an ownership-tracking element (returned element, len/size_hint, elements read by Debug/PartialEq/Hash, elements destroyed, "
+        "exactly-once overall). Conversions (arrays, nested arrays, tuples, slices, FromIterator short/exact/long, matrix row/col arrays in both layouts) are recorded from the code "
+        "and validated by TLC against the ledger specification."),
+  design="§6 C18"),
 }
 
 PENDING_REASON = "check for this property is not built yet in this round (see DESIGN.md §10 build order); no claim made"
